@@ -131,6 +131,45 @@ def direction_a(ctx, fams, polys):
                 ctx.count(1, distinct_key=("eval", fam["name"], label, str(mt)))
 
 
+def direction_a_nodes(ctx, fams, polys):
+    """the evaluator behind Get_*_pg and Evaluate_dofsValues_at_coordinates (`_Eval_Functions`) at the reference nodes, given
+    exactly as `Get_Local_Coords()` returns them (an integer array for the types whose nodes have integer coordinates), as
+    floats, and at one integer-valued point typed int: N(node_j) is the Kronecker delta and every table value equals the
+    table polynomial - the value of a table cannot depend on the type the point is written in."""
+    for fam in fams:
+        if fam["kind"] != "lagrange":
+            continue
+        g, dim = polys[fam["name"]]
+        local = np.asarray(g.Get_Local_Coords())
+        tables = [("N", g._N, None), ("dN", g._dN, 0), ("ddN", g._ddN, 1)]
+        cands = [("nodes as returned", local), ("nodes as float", local.astype(float))]
+        ip = np.rint(local.astype(float).mean(0))
+        if np.allclose(ip, local.astype(float).mean(0)) or local.dtype.kind in "iu":
+            cands.append(("integer point typed int", ip.astype(int).reshape(1, -1)))
+        for what, pts in cands:
+            for label, tab, di in tables:
+                try:
+                    t = tab()
+                except Exception:
+                    continue
+                if t is None or np.size(t) == 0:
+                    continue
+                arr = np.asarray(g._Eval_Functions(t, pts))
+                nf = len(fam["N"])
+                for p in range(pts.shape[0]):
+                    x = [float(v) for v in pts[p]] + [0.0] * (3 - pts.shape[1])
+                    for i in range(nf):
+                        for d in range(arr.shape[1]):
+                            terms = fam["N"][i] if di is None else fam["D"][di][i][d]
+                            expv = evalpoly(terms, x)
+                            if abs(arr[p, d, i] - expv) > 1e-11 * max(1.0, abs(expv)):
+                                ctx.violation(f"eval-nodes/{fam['name']}/{label}", f"{label} of {fam['name']} evaluated at the point {list(pts[p])} ({what}, dtype {pts.dtype}) is {arr[p, d, i]}, the table polynomial gives {expv} (function {i}, direction {d})", {"family": fam["name"], "table": label, "points": what})
+                if label == "N" and pts.shape[0] == nf and what != "integer point typed int":
+                    if np.abs(arr[:, 0, :] - np.eye(nf)).max() > 1e-11:
+                        ctx.violation(f"kronecker-eval/{fam['name']}", f"N_i(node_j) of {fam['name']} evaluated at Get_Local_Coords() ({what}) is not the identity", {"family": fam["name"]})
+                ctx.count(1, distinct_key=("eval-nodes", fam["name"], label, what))
+
+
 def run(ctx):
     fams, polys = extract()
     path = os.path.join(ctx.scratch, "shape_tables.json")
@@ -158,6 +197,7 @@ def run(ctx):
             if v[pred]:
                 ctx.violation(f"{pred}/{v['name']}", f"{v['name']}: {label} fails for {v[pred][:6]} (indices: derivative order, function, direction / function, node / exponent)", {"family": v["name"], "predicate": pred, "failing": v[pred], "table": byname[v['name']]})
     direction_a(ctx, fams, polys)
+    direction_a_nodes(ctx, fams, polys)
     # binding self-test (thorough): corrupt one coefficient and drop one term -> TLC must reject
     if ctx.thorough:
         import copy
